@@ -18,6 +18,9 @@ ASSUMPTIONS = ["slices are generated in range with positive step (a negative ste
 BIN = {"+": operator.add, "-": operator.sub, "^": operator.xor, "&": operator.and_, "|": operator.or_}
 
 
+INPLACE = {"+": operator.iadd, "-": operator.isub, "^": operator.ixor, "&": operator.iand, "|": operator.ior}
+
+
 def red(v, k):
     return v & ((1 << k) - 1) if k else v
 
@@ -57,6 +60,12 @@ def check_pair(c):
             r.ival[0] = red(r.ival[0] + 1, k)
         is_poly(A, a, k, "Poly%sPoly:operand-changed" % op)
         is_poly(B, b, k, "Poly%sPoly:operand-changed" % op)
+    # the augmented forms (x op= y) are the same operators: same value, right operand untouched
+    for op in c.get("ops", "+-^&|"):
+        X = mk(a, k)
+        r = guard(INPLACE[op], X, B)
+        is_poly(r, m_bin(op, a, b, k), k, "Poly%s=Poly" % op)
+        is_poly(B, b, k, "Poly%s=Poly:right-operand-changed" % op)
     cat = guard(operator.floordiv, A, B)
     is_poly(cat, a + b, k, "Poly//Poly")
     is_poly(A, a, k, "Poly//Poly:operand-changed")
